@@ -1,0 +1,5 @@
+//go:build !verif
+
+package fifo
+
+func verifPoint(string, ...any) {}
